@@ -120,6 +120,12 @@ impl E2e {
 
     /// Start the sender and return at once (the handshake itself is under observation).
     pub fn start_raw(addrs: &[u8], config: DynamicConfig, policy: RxPolicy) -> Option<E2e> {
+        // a SIGHUP raised before the sender has installed its own listener must not terminate the process
+        extern "C" fn ignore_hup(_: libc::c_int) {}
+        static HUP_ONCE: std::sync::Once = std::sync::Once::new();
+        HUP_ONCE.call_once(|| unsafe {
+            libc::signal(libc::SIGHUP, ignore_hup as *const () as usize);
+        });
         let k = SCENARIO.fetch_add(1, Ordering::Relaxed);
         let dir = crate::rt::verif_dir().join("harness").join("target");
         let _ = std::fs::create_dir_all(&dir);
